@@ -198,6 +198,17 @@ static void fiber_event_wake_waiters(fiber_manager_t* manager,
 static void fiber_event_wake_sleepers(fiber_manager_t* manager,
                                       uint64_t trigger_count) {
   fiber_spinlock_lock(&sleep_spinlock);
+#if defined(__linux__)
+  // the expirations are fetched under the sleep lock (see fiber_sleep()): if
+  // they were read first and added to timer_trigger_count only later, a
+  // fiber_sleep() running in between would see an empty timerfd *and* a stale
+  // count, and the update below would then carry the count past its deadline
+  uint64_t timer_count = 0;
+  if (fibershim_read(timer_fd, &timer_count, sizeof(timer_count)) ==
+      sizeof(timer_count)) {
+    trigger_count += timer_count;
+  }
+#endif
   timer_trigger_count += trigger_count;
 
   waiter_el_t* to_wake = NULL;
@@ -240,14 +251,8 @@ static int fiber_poll_events_internal(uint32_t seconds, uint32_t useconds) {
   for (i = 0; i < count; ++i) {
     const int the_fd = events[i].data.fd;
     if (the_fd == timer_fd) {
-      uint64_t timer_count = 0;
-      const int ret =
-          fibershim_read(timer_fd, &timer_count, sizeof(timer_count));
-      if (ret != sizeof(timer_count)) {
-        assert(errno == EWOULDBLOCK || errno == EAGAIN);
-        continue;
-      }
-      fiber_event_wake_sleepers(manager, timer_count);
+      // the timerfd is read by fiber_event_wake_sleepers(), under the sleep lock
+      fiber_event_wake_sleepers(manager, 0);
     } else {
       fd_wait_info_t* const info = &wait_info[the_fd];
       fiber_spinlock_lock(&info->spinlock);
